@@ -43,6 +43,9 @@ def _names():
 
 
 def _need(provider, handle, present=True):
+    from mcx import world
+    if world.ENV.sched is not None and world.ENV.sched.me() is not None:
+        return  # inside a scheduled writer thread: scenarios only use existing handles; an unlocked look-up would race
     has = provider.mdib.descriptions.handle.get_one(handle, allow_none=True) is not None
     if has != present:
         raise Disabled(handle)
